@@ -815,7 +815,12 @@ class Engine:
         if isinstance(a, ObjV) and isinstance(b, ObjV) and hasattr(self.model, "merge_obj"):
             return self.model.merge_obj(self, c, a, b)
         if isinstance(a, OpaqueV) or isinstance(b, OpaqueV):
-            return OpaqueV("merge")
+            o = OpaqueV("merge")
+            try:
+                o.truth = z3.If(c, self.truthy(a), self.truthy(b))  # the merged value is a or b: so is its truth value
+            except Unsupported:
+                pass
+            return o
         an, av = self.opt_parts(a)
         bn, bv = self.opt_parts(b)
         if av is None and bv is None:
